@@ -27,14 +27,69 @@ theorem toS_isSome (c : Coll) : (toS c).isSome = c.isCreated := by
 theorem toS_created {c : Coll} (h : c.isCreated = true) : toS c = some ⟨c.docs, c.indexes⟩ := by
   simp [toS, h]
 
-/-- a step that does not make an existing collection vanish acts on the abstraction exactly as
-    the oracle says, with the same output -/
-theorem collOp_refines (o : CollOp) (c : Coll)
-    (h : (!o.isDrop && c.isCreated && !(collOp o c).1.isCreated) = false) :
+/-! ### existence is recorded -/
+
+theorem recorded_empty : Coll.empty.recorded = true := rfl
+
+/-- a store in which existence is recorded has its flag set or is the empty store -/
+theorem recorded_cases {c : Coll} (h : c.recorded = true) :
+    c.forceCreated = true ∨ c = Coll.empty := by
+  obtain ⟨docs, idx, f⟩ := c
+  cases f
+  · cases docs <;> cases idx <;> simp_all [Coll.recorded, Coll.empty]
+  · exact Or.inl rfl
+
+theorem recorded_of_flag {c : Coll} (h : c.forceCreated = true) : c.recorded = true := by
+  simp [Coll.recorded, h]
+
+theorem isCreated_of_flag {c : Coll} (h : c.forceCreated = true) : c.isCreated = true := by
+  simp [Coll.isCreated, h]
+
+/-- where existence is recorded, `is_created` is the flag -/
+theorem isCreated_eq_flag {c : Coll} (h : c.recorded = true) : c.isCreated = c.forceCreated := by
+  rcases recorded_cases h with hf | he
+  · rw [isCreated_of_flag hf, hf]
+  · subst he; rfl
+
+/-- no handle operation but `drop` ever resets the flag -/
+theorem collOp_flag (o : CollOp) (c : Coll) (hd : o.isDrop = false)
+    (hf : c.forceCreated = true) : (collOp o c).1.forceCreated = true := by
+  cases o with
+  | drop => simp [CollOp.isDrop] at hd
+  | find => exact hf
+  | indexInformation => exact hf
+  | insert id => simp only [collOp]; split <;> simp [hf]
+  | deleteOne id => simp only [collOp]; split <;> simp [hf]
+  | deleteAll => simp [collOp, hf]
+  | createIndex nm info =>
+    simp only [collOp]
+    cases alGet? (nm.getD (genIndexName info.key)) c.indexes with
+    | none => rfl
+    | some ex => simp only []; split <;> simp [hf]
+  | dropIndex r => simp only [collOp]; split <;> simp [hf]
+  | dropIndexes => simp [collOp, hf]
+
+/-- every handle operation keeps existence recorded -/
+theorem collOp_recorded (o : CollOp) (c : Coll) (h : c.recorded = true) :
+    (collOp o c).1.recorded = true := by
+  by_cases hd : o.isDrop = true
+  · cases o <;> simp [CollOp.isDrop] at hd
+    exact recorded_empty
+  rcases recorded_cases h with hf | he
+  · exact recorded_of_flag (collOp_flag o c (by simpa using hd) hf)
+  · subst he
+    cases o with
+    | createIndex nm info => simp [collOp, Coll.empty, Coll.recorded, alGet?]
+    | dropIndex r => simp [collOp, Coll.empty, Coll.recorded, alHas, alGet?]
+    | _ => simp [collOp, Coll.empty, Coll.recorded]
+
+/-- on a store in which existence is recorded, a handle operation acts on the abstraction
+    exactly as the oracle says, with the same output: nothing but `drop` makes it vanish -/
+theorem collOp_refines (o : CollOp) (c : Coll) (h : c.recorded = true) :
     toS (collOp o c).1 = (scollOp o (toS c)).1 ∧ (collOp o c).2 = (scollOp o (toS c)).2 := by
-  by_cases hc : c.isCreated = true
-  · rw [toS_created hc]
-    simp only [hc, Bool.and_true] at h
+  rcases recorded_cases h with hf | he
+  · have hc : c.isCreated = true := isCreated_of_flag hf
+    rw [toS_created hc]
     cases o with
     | find => simp [collOp, scollOp, toS, hc]
     | indexInformation => simp [collOp, scollOp, toS, hc]
@@ -44,44 +99,25 @@ theorem collOp_refines (o : CollOp) (c : Coll)
       · simp [toS, hc]
       · simp [toS, Coll.isCreated]
     | deleteOne id =>
-      simp only [collOp, scollOp] at h ⊢
+      simp only [collOp, scollOp]
       split
-      · rename_i hm
-        simp only [hm, if_true, CollOp.isDrop, Bool.not_false, Bool.true_and,
-          Bool.not_eq_false'] at h
-        simp [toS, h]
+      · simp [toS, Coll.isCreated, hf]
       · simp [toS, hc]
-    | deleteAll =>
-      simp only [collOp, scollOp, CollOp.isDrop, Bool.not_false, Bool.true_and,
-        Bool.not_eq_false'] at h ⊢
-      simp [toS, h]
+    | deleteAll => simp [collOp, scollOp, toS, Coll.isCreated, hf]
     | createIndex nm info =>
       simp only [collOp, scollOp]
       generalize nm.getD (genIndexName info.key) = name
-      have hup : ({ c with indexes := alUpsert name info c.indexes } : Coll).isCreated = true := by
-        have := alUpsert_ne_nil name info c.indexes
-        cases hu : alUpsert name info c.indexes with
-        | nil => exact absurd hu this
-        | cons p r => simp [Coll.isCreated]
       cases hg : alGet? name c.indexes with
-      | none => simp [toS, hup]
-      | some ex => by_cases he : ex = info <;> simp [he, toS, hup, hc]
+      | none => simp [toS, Coll.isCreated]
+      | some ex => by_cases he : ex = info <;> simp [he, toS, Coll.isCreated, hf]
     | dropIndex r =>
-      simp only [collOp, scollOp] at h ⊢
+      simp only [collOp, scollOp]
       split
-      · rename_i hm
-        simp only [hm, if_true, CollOp.isDrop, Bool.not_false, Bool.true_and,
-          Bool.not_eq_false'] at h
-        simp [toS, h]
+      · simp [toS, Coll.isCreated, hf]
       · simp [toS, hc]
-    | dropIndexes =>
-      simp only [collOp, scollOp, CollOp.isDrop, Bool.not_false, Bool.true_and,
-        Bool.not_eq_false'] at h ⊢
-      simp [toS, h]
+    | dropIndexes => simp [collOp, scollOp, toS, Coll.isCreated, hf]
     | drop => simp [collOp, scollOp, toS_empty]
-  · have hc' : c.isCreated = false := by simpa using hc
-    have he := (isCreated_false_iff c).mp hc'
-    subst he
+  · subst he
     rw [toS_empty]
     cases o with
     | find => simp [collOp, scollOp, toS, Coll.empty, Coll.isCreated]
